@@ -57,6 +57,15 @@ ASSUMPTIONS = [
     "np.bool_ is not a bool/Number, np.int64 is an Integral but not an "
     "int); representatives per declared type are a table in the rule; the "
     "thorough tier compares the model's outcomes with the imported package.",
+    "R11.2 description law: int/float is derived from an entry's own "
+    "description only where it is explicit (units [min] [s] [µs] [µm] [nm] "
+    "[°C] [Pa*s] [µL/s] [V] [%] [1/pix] => fractions kept; [px] [pix], "
+    "'number of', 'count', 'Index of' => integers); 39 of 108 entries today, "
+    "the others (no unit, [Hz], names, switches) are NOT decided and are "
+    "listed in the evidence notes.",
+    "R11.5 ownership: a converter must not return its mutable argument "
+    "itself (np.asarray / copy=False modelled as aliasing); aliasing of "
+    "nested elements is not decided.",
     "collections.UserDict / MutableMapping are trusted: update, setdefault, "
     "__init__, copy route through __setitem__; __ior__ writes self.data.",
 ]
